@@ -10,6 +10,7 @@ import (
 	"fmt"
 	"net"
 	"os"
+	"regexp"
 	"strings"
 	"sync"
 	"testing"
@@ -53,7 +54,23 @@ func c07Names() []string {
 	return n
 }
 
-var c07Special = []string{"H1.Test", "UPPER.TEST", "x.h1.test", "x.h2.test", "127.0.0.3", "10.1.2.3", "[::1]", "[2001:db8::7]", "sub.deep.h3.test", "xn--bcher-kva.test"}
+var c07Special = []string{"H1.Test", "UPPER.TEST", "x.h1.test", "x.h2.test", "X.h1.test", "X.h2.test", "h1.TEST", "H2.test", "x.H2.test", "127.0.0.3", "10.1.2.3", "[::1]", "[2001:db8::7]", "sub.deep.h3.test", "xn--bcher-kva.test"}
+
+// c07Filter is the --mitm-domains list of the "filter" configuration: Go regular expressions, case-sensitive unless
+// they say otherwise, '-' marking exclusions. c07Intercepted is its documented meaning, one rule at a time.
+var c07Filter = []string{`\.test$`, `(?i)^upper\.`, `^[0-9.]+$`, `:`, `-^x\.`}
+
+func c07Intercepted(host string) bool {
+	inc, exc := false, false
+	for _, r := range c07Filter {
+		if strings.HasPrefix(r, "-") {
+			exc = exc || regexp.MustCompile(r[1:]).MatchString(host)
+		} else {
+			inc = inc || regexp.MustCompile(r).MatchString(host)
+		}
+	}
+	return inc && !exc
+}
 
 func genC07(t *rapid.T) C07Case {
 	c := C07Case{Cfg: C07Cfg{CacheSize: rapid.SampledFrom([]int{1, 2, 8, 1024}).Draw(t, "cache"), Short: rapid.IntRange(0, 29).Draw(t, "short") == 0,
@@ -155,7 +172,7 @@ func (e *c07Env) proxy(cfg C07Cfg) (*ProxyInst, error) {
 	}
 	o := ProxyOpts{CA: e.ca, RootCAs: e.ca.Pool, MITM: true, MITMConfig: mc, Insecure: cfg.Insecure, DialTimeout: 3 * time.Second}
 	if cfg.Domains == "filter" {
-		o.MITMDomains = []string{`(?i)\.test$`, `^[0-9.]+$`, `:`, `-^x\.`}
+		o.MITMDomains = c07Filter
 	}
 	for _, p := range e.origins {
 		o.ConnectTo = append(o.ConnectTo, ":"+p.Port+":127.0.0.3:"+p.Port)
@@ -225,7 +242,7 @@ func (e *c07Env) oneConn(px *ProxyInst, cfg C07Cfg, x C07Conn, vid string) (fail
 	origin := e.origins[x.Origin]
 	authority := x.Host + ":" + origin.Port
 	bare := strings.Trim(x.Host, "[]")
-	excluded := cfg.Domains == "filter" && strings.HasPrefix(bare, "x.")
+	excluded := cfg.Domains == "filter" && !c07Intercepted(bare)
 	key := func(clause string) string {
 		if x.XFP == "http" {
 			return "C07:xfp-http:" + clause
@@ -372,7 +389,7 @@ func classifyC07(c C07Case) (bool, string, []string) {
 			cls = append(cls, "bad-origin-"+x.Origin)
 			nt = true
 		}
-		if c.Cfg.Domains == "filter" && strings.HasPrefix(bare, "x.") {
+		if c.Cfg.Domains == "filter" && !c07Intercepted(bare) {
 			cls = append(cls, "excluded-host")
 		}
 		if x.XFP != "" {
